@@ -219,7 +219,7 @@ def run(tier, seed):
             params, steps = c08.generate(seed, run_no, tier)
             jobs.append({"kind": "c08", "seed": seed, "run": run_no, "tier": tier,
                          "env": env, "params": params, "steps": steps,
-                         "timeout": 600 if thorough else 200})
+                         "timeout": 600 if thorough else 90})
             run_no += 1
         submit(jobs)
         el = time.time() - t0
@@ -386,7 +386,7 @@ def finish(tier, seed, jobs, results, t0, n_directed, reported, exit_code, trip,
         "sampling, not proof: the directed part and the abort sweep are exhaustive only over "
         "what they enumerate",
     ]
-    nviol = sum(len(r["violations"]) for r in ok)
+    nviol = sum(len(r.get("violations") or []) for r in results if r)
     driver.write_evidence(PROP, tier, seed, coverage, wall, nviol, assumptions)
     log(f"[C08] {len(ok)} runs, {n_steps} steps, {sum(fault_kinds.values())} faults fired, "
         f"{nviol} violation records, exit {exit_code}, {wall:.0f}s")
